@@ -26,6 +26,8 @@ pub struct Caps {
 
 #[derive(Clone, Debug, Default)]
 pub struct Stats {
+    /// transitions executed twice (chosen by VERIF_SEED) whose successor keys were compared
+    pub determinism_replays: u64,
     pub states: u64,
     pub transitions: u64,
     pub depth_completed: usize,
@@ -56,6 +58,8 @@ pub fn bfs<M: Model>(m: &M, seeds: Vec<(M::State, Vec<M::Op>)>, max_depth: usize
     let t0 = Instant::now();
     let seen = Seen::new();
     let transitions = AtomicU64::new(0);
+    let replays = AtomicU64::new(0);
+    let seed: u64 = std::env::var("VERIF_SEED").ok().and_then(|s| s.parse().ok()).unwrap_or(0);
     let mut frontier: Vec<(M::State, Vec<M::Op>)> = Vec::new();
     for (s, h) in seeds {
         if seen.insert(m.key(&s)) {
@@ -84,7 +88,19 @@ pub fn bfs<M: Model>(m: &M, seeds: Vec<(M::State, Vec<M::Op>)>, max_depth: usize
                 for op in m.ops(s, hist) {
                     transitions.fetch_add(1, Ordering::Relaxed);
                     if let Some(n) = m.step(s, &op, hist) {
-                        if seen.insert(m.key(&n)) {
+                        // determinism self-check (DESIGN 2.7): a seed-chosen subset of transitions is executed twice
+                        let kn = m.key(&n);
+                        if (kn as u64 ^ seed.wrapping_mul(0x9e37_79b9_7f4a_7c15)) % 251 == 0 {
+                            replays.fetch_add(1, Ordering::Relaxed);
+                            match m.step(s, &op, hist) {
+                                Some(n2) if m.key(&n2) == kn => {}
+                                _ => {
+                                    eprintln!("MACHINERY: non-deterministic transition {op:?} after {hist:?}");
+                                    std::process::exit(2);
+                                }
+                            }
+                        }
+                        if seen.insert(kn) {
                             let mut h = hist.clone();
                             h.push(op);
                             out.push((n, h));
@@ -100,5 +116,6 @@ pub fn bfs<M: Model>(m: &M, seeds: Vec<(M::State, Vec<M::Op>)>, max_depth: usize
     }
     stats.states = seen.len() as u64;
     stats.transitions = transitions.load(Ordering::Relaxed);
+    stats.determinism_replays = replays.load(Ordering::Relaxed);
     stats
 }
